@@ -59,6 +59,16 @@ cancel it - the rounding error is that of the terms, not of the remainder)
             point, since points carry different e/obliquity) and modal_sum per element of the array call; (c) zero_obl
             at the elements whose obliquity is exactly 0 (obliquity variants vs no-obliquity variants called with the
             same arrays).  Quick: un-jitted source; thorough adds 8 fixed cases through the compiled dispatchers.
+  Spins: generic ratios in [-3,3], the exact resonances o = n, -n, 0, 3n/2, 2n, and (class `near`) a log-uniform OFFSET
+            |o - k n/2| in 10^[-22,-6] rad/s of either sign from every resonance k n/2, |k| <= 10 (the zeros of the modes
+            2o -+ kn and o -+ kn, k <= 5, prograde and retrograde), so that mode frequencies land below, at and above the
+            zero-frequency cut-off that `use_static=False` applies (|frequency| > MIN_SPIN_ORBITAL_DIFF = 1e-10 rad/s) - and
+            below one ulp of o, where the offset is lost.  Every clause (modal_sum, zero_obl, med_gen, low_e, array) is
+            evaluated at these spins too (the two-scale kinds use the case's spin for the periodic parts and a
+            resonance-free spin only to isolate the static term).  All implementations use the same absolute cut-off and
+            the same expressions a*o + b*n, so they must agree on which modes are on; only when a mode frequency lies
+            within 8 ulp of max(|2o|, 5|n|) - the rounding of that difference, which may depend on the order of operations
+            - of the cut-off is the case not judged (discarded as `switch:ambiguous`; probability ~1e-15 per case).
   Two-scale ratio tests (no fixed tolerance decides; D(lambda) = max-norm of the difference over 4..6 points and
   all six components, in units of sc; evaluated at lambda, lambda/2, lambda/4; D <= 1e-11 is "below floor" = held).
   A term of too low an order makes EVERY consecutive ratio small for EVERY value of the secondary parameter, whereas a
@@ -136,7 +146,7 @@ LEVEL_NOTE = ('Trusts numpy double arithmetic and the finite-difference error bu
               'dispatchers are exercised in 8 fixed cases (quick) / 10% of generated cases (thorough) and compared with the '
               'un-jitted result. "To second order in obliquity" is decided with e scaled jointly with the obliquity (the '
               'documented total-degree-3 truncation); at fixed e>0 the medium variants differ from the general ones by e^3*obl.')
-CASES = {'quick': 4000, 'thorough': 1200000}
+CASES = {'quick': 4000, 'thorough': 600000}
 SHARDS = {'quick': 8, 'thorough': 16}
 G_SI = 6.6743e-11  # only used for the tolerance scale; the value under test comes from TidalPy.constants
 
@@ -157,7 +167,7 @@ E_MIN = 1e-6     # e and obliquity are 0 or >= 1e-6: below that e^3 terms become
 
 RULE = ('Hypothesis draws kind (derivs 45% | array 18% (per-point arrays of e, obliquity, time with exact zeros at elements chosen by Hypothesis) | zero_obl | med_gen | sync | low_e), family, 1..3 points (colatitude in [0.05, pi-0.05], '
         'longitude in [0, 2pi)), time in [0,3] orbital periods, n = 10^[-7,-3.5] rad/s, spin = n*ratio (ratio in [-3,3] | 1 | -1 | 0 | '
-        '1.5 | 2), e in {0} u [1e-6,0.4], obliquity in {0} u [1e-6,1.6] (smaller non-zero values only produce subnormal e^3 terms), host mass 10^[22,31] kg, a 10^[7.5,11] m, R '
+        '1.5 | 2) or k*n/2 +- 10^[-22,-6] rad/s with |k|<=10 (next to a spin-orbit resonance), e in {0} u [1e-6,0.4], obliquity in {0} u [1e-6,1.6] (smaller non-zero values only produce subnormal e^3 terms), host mass 10^[22,31] kg, a 10^[7.5,11] m, R '
         '10^[5,8] m, use_static, call path (py arrays | py scalars | jit); two-scale kinds draw obliquity in [0.02,0.2], kappa = e/obl '
         'in {0} u [0.2,2], e in [0.01,0.2]. Non-trivial = e > 0.01 and spin != n and obliquity > 0.01 where the kind/family takes '
         'them (sync: e > 0.01 only; low_e: obliquity > 0.01; med_gen: always; array: max e > 0.01 and an exact zero next to a non-zero element in e or obliquity); distinct = distinct argument dict.')
@@ -181,7 +191,9 @@ IMPL = {
 FAMILIES = {'simple': ['simple'], 'no_obl': ['nsr', 'nsr_modes'], 'med_obl': ['med', 'med_modes'],
             'gen_obl': ['gen', 'gen_modes'], 'low_e': ['low_e_modes']}
 KINDS = ['derivs', 'zero_obl', 'med_gen', 'sync', 'low_e', 'array']
-SPINS = ['ratio', 'sync', 'anti', 'zero', 'three_half', 'double']
+SPINS = ['ratio', 'sync', 'anti', 'zero', 'three_half', 'double', 'near']
+RES_K = 10          # spin-orbit resonances o = k n / 2, |k| <= 10: the zeros of the modes 2o -+ k n (k <= 5) and o -+ k n (k <= 5)
+SWITCH_ULPS = 8.0   # ambiguity window of the zero-frequency switch, in ulp of max(|2o|, 5|n|) (see docstring)
 COMP = ['U', 'Ut', 'Up', 'Utt', 'Upp', 'Utp']
 
 warnings.filterwarnings('ignore', message='.*parallel=True.*')
@@ -323,6 +335,8 @@ def in_domain(case):
         ok = ok and 1 <= len(case['pts']) <= 6 and all(COLAT_MIN <= p[0] <= math.pi - COLAT_MIN and 0.0 <= p[1] <= 2 * math.pi
                                                         for p in case['pts'])
         ok = ok and 0.0 <= case['tau'] <= 3.0 and -7.0 <= case['logn'] <= -3.5 and case['spin'] in SPINS \
+            and (case['spin'] != 'near' or (abs(int(case['res_k'])) <= RES_K and -22.0 <= case['dlog'] <= -6.0
+                                            and case['dsign'] in (-1, 1))) \
             and -3.0 <= case['ratio'] <= 3.0 and (case['e'] == 0.0 or E_MIN <= case['e'] <= 0.4) \
             and (case['obl'] == 0.0 or E_MIN <= case['obl'] <= 1.6) \
             and 22.0 <= case['logM'] <= 31.0 and 7.5 <= case['loga'] <= 11.0 and 5.0 <= case['logR'] <= 8.0 \
@@ -380,7 +394,7 @@ def _fill(d):
     e = {'u': r.u(E_MIN, 0.4), 'small': r.u(E_MIN, 0.02), 'zero': 0.0}[d['e_kind']]
     ob = {'u': r.u(E_MIN, 1.6), 'mid': r.u(E_MIN, 0.3), 'small': r.u(E_MIN, 0.01), 'zero': 0.0}[d['obl_kind']]
     return {'kind': d['kind'], 'family': d['family'], 'only': None, 'pts': pts, 'tau': r.u(0.0, 3.0), 'logn': r.u(-7.0, -3.5),
-            'spin': d['spin'], 'ratio': r.u(-3.0, 3.0), 'e': e, 'obl': ob, 'logM': r.u(22.0, 31.0), 'loga': r.u(7.5, 11.0),
+            'spin': d['spin'], 'ratio': r.u(-3.0, 3.0), 'res_k': d['res_k'], 'dlog': r.u(-22.0, -6.0), 'dsign': d['dsign'], 'e': e, 'obl': ob, 'logM': r.u(22.0, 31.0), 'loga': r.u(7.5, 11.0),
             'logR': r.u(5.0, 8.0), 'use_static': d['use_static'], 'path': d['path'], 'obl2': r.u(0.02, 0.2),
             'kappa': 0.0 if d['pure_obliquity'] else r.u(0.2, 2.0), 'e2': r.u(0.01, 0.2),
             'evec': evec if d['kind'] == 'array' else None, 'obvec': obvec if d['kind'] == 'array' else None,
@@ -396,7 +410,8 @@ def strategy(tier):
     return st.fixed_dictionaries({
         'kind': st.sampled_from(kinds), 'family': st.sampled_from(fams), 'npts': st.integers(1, 3),
         'pole': st.sampled_from([False, False, False, True]),
-        'spin': st.sampled_from(['ratio'] * 7 + SPINS[1:]),
+        'spin': st.sampled_from(['ratio'] * 7 + SPINS[1:6] + ['near'] * 5),
+        'res_k': st.sampled_from(list(range(-RES_K, RES_K + 1))), 'dsign': st.sampled_from([-1, 1]),
         'e_kind': st.sampled_from(['u'] * 8 + ['small', 'zero']),
         'obl_kind': st.sampled_from(['u'] * 6 + ['mid'] * 2 + ['small', 'zero']),
         'use_static': st.booleans(), 'path': st.sampled_from(paths),
@@ -408,7 +423,7 @@ def strategy(tier):
 
 def _base(**kw):
     c = {'kind': 'derivs', 'family': 'no_obl', 'only': None, 'pts': [[1.1, 0.7], [2.4, 4.0], [0.06, 5.5]], 'tau': 0.77,
-         'logn': -5.0, 'spin': 'ratio', 'ratio': 1.37, 'e': 0.23, 'obl': 0.41, 'logM': 27.0, 'loga': 8.7, 'logR': 6.2,
+         'logn': -5.0, 'spin': 'ratio', 'ratio': 1.37, 'res_k': 2, 'dlog': -12.0, 'dsign': 1, 'e': 0.23, 'obl': 0.41, 'logM': 27.0, 'loga': 8.7, 'logR': 6.2,
          'use_static': False, 'path': 'py', 'obl2': 0.1, 'kappa': 1.0, 'e2': 0.1, 'evec': None, 'obvec': None, 'tauvec': None}
     c.update(kw)
     if c['kind'] == 'array' and c['evec'] is None:
@@ -428,6 +443,15 @@ def fixed_cases(tier):
         for static in (False, True):
             out.append(_base(kind=kind, use_static=static))
         out.append(_base(kind=kind, kappa=0.0, spin='sync'))
+    # spins NEXT TO a spin-orbit resonance (offset in rad/s), so that a mode frequency lies below / above the 1e-10 cut-off
+    for k, dlog, sign in ((2, -12.0, 1), (2, -15.5, -1), (3, -12.3, 1), (4, -10.8, 1), (-2, -13.0, -1), (1, -9.5, 1), (2, -20.0, 1)):
+        near = dict(spin='near', res_k=k, dlog=dlog, dsign=sign)
+        for fam in ('no_obl', 'med_obl', 'gen_obl'):
+            out.append(_base(family=fam, use_static=False, **near))
+        out.append(_base(kind='zero_obl', use_static=False, **near))
+        out.append(_base(kind='array', family='gen_obl', use_static=False, **near))
+    out.append(_base(kind='med_gen', use_static=False, spin='near', res_k=2, dlog=-12.0, dsign=1))
+    out.append(_base(kind='low_e', use_static=False, spin='near', res_k=3, dlog=-11.5, dsign=-1))
     for fam in FAMILIES:                   # array-valued e / obliquity / time with exact zeros at some elements
         for static in (False, True):
             out.append(_base(kind='array', family=fam, use_static=static))
@@ -441,7 +465,8 @@ def required_labels(tier):
     return ['kind:' + k for k in KINDS] + ['impl:' + i for i in IMPL] + ['path:py', 'path:py_scalar', 'path:jit',
            'static:on', 'static:off', 'spin:sync', 'spin:anti', 'spin:zero', 'spin:generic', 'e:zero', 'obl:zero',
            'twoscale:pure_obliquity', 'twoscale:joint', 'colat:near_pole', 'vec:e_mixed_zero', 'vec:obl_mixed_zero',
-           'vec:time_zero'] + ['array:' + i for i in IMPL]
+           'vec:time_zero', 'spin:near_resonance', 'near:prograde', 'near:retrograde', 'near:mode_below_cutoff,static_off',
+           'near:modes_above_cutoff', 'near:offset_lost_in_rounding'] + ['array:' + i for i in IMPL]
 
 
 def warm():
@@ -455,10 +480,35 @@ def warm():
 
 def _params(case):
     n = 10.0 ** float(case['logn'])
-    ratio = {'ratio': float(case['ratio']), 'sync': 1.0, 'anti': -1.0, 'zero': 0.0, 'three_half': 1.5, 'double': 2.0}[case['spin']]
+    if case['spin'] == 'near':
+        # a log-uniform OFFSET (rad/s, either sign) from the spin-orbit resonance o = k n / 2
+        o = n * (int(case['res_k']) / 2.0) + int(case['dsign']) * 10.0 ** float(case['dlog'])
+        ratio = o / n
+    else:
+        ratio = {'ratio': float(case['ratio']), 'sync': 1.0, 'anti': -1.0, 'zero': 0.0, 'three_half': 1.5, 'double': 2.0}[case['spin']]
+        o = n * ratio
     R, M, a = 10.0 ** float(case['logR']), 10.0 ** float(case['logM']), 10.0 ** float(case['loga'])
-    return {'n': n, 'o': n * ratio, 'ratio': ratio, 'R': R, 'M': M, 'a': a, 'e': float(case['e']), 'ob': float(case['obl']),
+    return {'n': n, 'o': o, 'ratio': ratio, 'R': R, 'M': M, 'a': a, 'e': float(case['e']), 'ob': float(case['obl']),
             'static': bool(case['use_static']), 'sc': G_SI * M * R * R / a ** 3, 't': float(case['tau']) * 2.0 * math.pi / n}
+
+
+def _mode_frequencies(P):
+    """|a o + b n| for every mode any variant uses (a in 0..2, |b| <= 5), computed like the sources do (a*o + b*n in doubles)."""
+    o, n = P['o'], P['n']
+    return [abs(a * o + b * n) for a in (0.0, 1.0, 2.0) for b in range(-5, 6) if (a, b) != (0.0, 0)]
+
+
+def _switch_state(P):
+    """(ambiguous, below): `use_static=False` switches a mode off when |frequency| <= MIN_SPIN_ORBITAL_DIFF (1e-10 rad/s, the
+    repository's constant).  All eight implementations use the same absolute cut-off, but a mode frequency is a rounded
+    difference a*o + b*n whose rounding error is up to a few ulp of max(|2o|, 5|n|) and may depend on the order of the
+    operations an implementation uses; a frequency closer to the cut-off than SWITCH_ULPS of that magnitude may therefore
+    legitimately fall on different sides in two implementations -> `ambiguous`, the case is not judged.  `below` = some mode
+    has 0 < |frequency| <= cut-off (switched off although the spin is not exactly on the resonance)."""
+    from TidalPy.tides.potential import MIN_SPIN_ORBITAL_DIFF as thr
+    win = SWITCH_ULPS * 2.0 ** -52 * max(abs(2.0 * P['o']), 5.0 * abs(P['n']))
+    fr = _mode_frequencies(P)
+    return any(abs(f - thr) <= win for f in fr), any(0.0 < f <= thr for f in fr)
 
 
 def _generic_spin(P):
@@ -687,20 +737,27 @@ def _eval_med_gen(case, c, P, path):
     for iv, kap in enumerate(kappas):
         for lam in SCALES:
             e, ob = kap * ob0 * lam, ob0 * lam
-            A = _call('med_modes', path, lon, col, tm, P, e=e, ob=ob, static=False, o=og)
-            B = _call('gen_modes', path, lon, col, tm, P, e=e, ob=ob, static=False, o=og)
+            # periodic parts at the case's own spin (exact resonance, next to one, generic): use_static=False, so both
+            # variants apply the zero-frequency switch to the same mode frequencies
+            A = _call('med_modes', path, lon, col, tm, P, e=e, ob=ob, static=False)
+            B = _call('gen_modes', path, lon, col, tm, P, e=e, ob=ob, static=False)
             D = {}
             for k in set(A) | set(B):
                 D[('mode', k)] = _norm(B.get(k, 0.0) - A.get(k, 0.0), sc)
-            At = _total(_call('med', path, lon, col, tm, P, e=e, ob=ob, static=False, o=og))
-            Bt = _total(_call('gen', path, lon, col, tm, P, e=e, ob=ob, static=False, o=og))
+            At = _total(_call('med', path, lon, col, tm, P, e=e, ob=ob, static=False))
+            Bt = _total(_call('gen', path, lon, col, tm, P, e=e, ob=ob, static=False))
             D[('total', 'periodic')] = _norm(Bt - At, sc)
             if P['static']:
-                As = _total(_call('med', path, lon, col, tm, P, e=e, ob=ob, static=True, o=og)) - At
-                Bs = _total(_call('gen', path, lon, col, tm, P, e=e, ob=ob, static=True, o=og)) - Bt
+                # static parts = (use_static=True) - (use_static=False) at a spin where no mode is switched off
+                As = _total(_call('med', path, lon, col, tm, P, e=e, ob=ob, static=True, o=og)) \
+                    - _total(_call('med', path, lon, col, tm, P, e=e, ob=ob, static=False, o=og))
+                Bs = _total(_call('gen', path, lon, col, tm, P, e=e, ob=ob, static=True, o=og)) \
+                    - _total(_call('gen', path, lon, col, tm, P, e=e, ob=ob, static=False, o=og))
                 D[('total', 'static')] = _norm(Bs - As, sc)
-                Ams = _modal_static(_call('med_modes', path, lon, col, tm, P, e=e, ob=ob, static=True, o=og), A)
-                Bms = _modal_static(_call('gen_modes', path, lon, col, tm, P, e=e, ob=ob, static=True, o=og), B)
+                Ams = _modal_static(_call('med_modes', path, lon, col, tm, P, e=e, ob=ob, static=True, o=og),
+                                    _call('med_modes', path, lon, col, tm, P, e=e, ob=ob, static=False, o=og))
+                Bms = _modal_static(_call('gen_modes', path, lon, col, tm, P, e=e, ob=ob, static=True, o=og),
+                                    _call('gen_modes', path, lon, col, tm, P, e=e, ob=ob, static=False, o=og))
                 D[('modes', 'static')] = _norm(Bms - Ams, sc)
             for key, v in D.items():
                 runs.setdefault(key, [[] for _ in kappas])[iv].append(v)
@@ -736,14 +793,16 @@ def _eval_low_e(case, c, P, path):
     for iv, ob in enumerate(obls):
         for lam in SCALES:
             e = e0 * lam
-            A = _call('low_e_modes', path, lon, col, tm, P, e=e, ob=ob, static=False, o=og)
-            B = _call('gen_modes', path, lon, col, tm, P, e=e, ob=ob, static=False, o=og)
+            A = _call('low_e_modes', path, lon, col, tm, P, e=e, ob=ob, static=False)      # the case's own spin
+            B = _call('gen_modes', path, lon, col, tm, P, e=e, ob=ob, static=False)
             D = {}
             for k in set(A) | set(B):
                 D[('mode', k)] = _norm(B.get(k, 0.0) - A.get(k, 0.0), sc)
             if P['static']:
-                As = _modal_static(_call('low_e_modes', path, lon, col, tm, P, e=e, ob=ob, static=True, o=og), A)
-                Bs = _modal_static(_call('gen_modes', path, lon, col, tm, P, e=e, ob=ob, static=True, o=og), B)
+                As = _modal_static(_call('low_e_modes', path, lon, col, tm, P, e=e, ob=ob, static=True, o=og),
+                                   _call('low_e_modes', path, lon, col, tm, P, e=e, ob=ob, static=False, o=og))
+                Bs = _modal_static(_call('gen_modes', path, lon, col, tm, P, e=e, ob=ob, static=True, o=og),
+                                   _call('gen_modes', path, lon, col, tm, P, e=e, ob=ob, static=False, o=og))
                 D[('modes', 'static')] = _norm(Bs - As, sc)
             for key, v in D.items():
                 runs.setdefault(key, [[] for _ in obls])[iv].append(v)
@@ -850,7 +909,18 @@ def evaluate(case):
     c = Collector(nontrivial=nontrivial)
     c.label('kind:' + kind, 'path:' + path, 'static:on' if P['static'] else 'static:off')
     if uses_spin:
-        c.label({'sync': 'spin:sync', 'anti': 'spin:anti', 'zero': 'spin:zero'}.get(case['spin'], 'spin:generic'))
+        c.label({'sync': 'spin:sync', 'anti': 'spin:anti', 'zero': 'spin:zero', 'near': 'spin:near_resonance'}.get(case['spin'], 'spin:generic'))
+        ambiguous, below = _switch_state(P)
+        if ambiguous and not P['static']:
+            from vlib.result import discard
+            return discard('a mode frequency lies within %g ulp (of max(|2o|,5|n|)) of the zero-frequency cut-off' % SWITCH_ULPS,
+                           labels=c.labels + ['switch:ambiguous'])
+        if case['spin'] == 'near':
+            c.label('near:prograde' if int(case['res_k']) > 0 else ('near:retrograde' if int(case['res_k']) < 0 else 'near:k=0'))
+            c.label('near:offset_lost_in_rounding' if P['o'] == P['n'] * (int(case['res_k']) / 2.0) else
+                    ('near:mode_below_cutoff' if below else 'near:modes_above_cutoff'))
+            if below and not P['static']:
+                c.label('near:mode_below_cutoff,static_off')
     if kind in ('derivs', 'zero_obl') and P['e'] == 0.0:
         c.label('e:zero')
     if uses_obl and P['ob'] == 0.0:
